@@ -33,6 +33,8 @@ type C10Scenario struct {
 	Tail uint64   `json:"tail"`
 	Len  int      `json:"len"`
 	Reqs []C10Req `json:"reqs"`
+	// Metrics: the server is built WithMetrics (a configuration that must not change any answer)
+	Metrics bool `json:"metrics,omitempty"`
 }
 
 const (
@@ -83,6 +85,7 @@ func genC10(t *rapid.T) C10Scenario {
 		Tail: rapid.SampledFrom([]uint64{1, 2, 5, 90}).Draw(t, "tail"),
 		Len:  rapid.SampledFrom([]int{1, 3, 70, 140}).Draw(t, "len"),
 	}
+	s.Metrics = rapid.IntRange(0, 2).Draw(t, "metrics") == 0
 	n := rapid.IntRange(1, 20).Draw(t, "nreqs")
 	for i := 0; i < n; i++ {
 		s.Reqs = append(s.Reqs, genC10Req(t))
@@ -302,11 +305,15 @@ func runC10(t *testing.T, s C10Scenario) (res Result) {
 		}
 		defer ne.close()
 		rec := &recStore{Store: st}
-		srv, err := p2p.NewExchangeServer[*vh.Header](ne.hosts[0], rec,
+		sopts := []p2p.Option[p2p.ServerParameters]{
 			p2p.WithNetworkID[p2p.ServerParameters](netID),
 			p2p.WithReadDeadline[p2p.ServerParameters](c10Read),
 			p2p.WithRequestTimeout[p2p.ServerParameters](c10Req_),
-			p2p.WithWriteDeadline[p2p.ServerParameters](c10Write))
+			p2p.WithWriteDeadline[p2p.ServerParameters](c10Write)}
+		if s.Metrics {
+			sopts = append(sopts, p2p.WithMetrics[p2p.ServerParameters]())
+		}
+		srv, err := p2p.NewExchangeServer[*vh.Header](ne.hosts[0], rec, sopts...)
 		if err != nil {
 			res.failf("HARNESS: server: %v", err)
 			return
